@@ -4,7 +4,10 @@ CHECK = {
     'level': 'exploration',
     'rule': ('narrow (cstl_string) and wide (cstl_wstring) strings through one generic harness, two distinct string '
              'objects per case. Generators: (1) closure over all pairs of strings of length <= 3 (thorough: <= 4) over a '
-             '3-character alphabet, and over 2 characters + embedded NUL from resize, including the never-allocated and '
+             '3-character alphabet (charset 0: a, b, 0xE9 narrow / a, b, 0x1F600 wide; charset 1, used in a share of the '
+             'closure scopes, half of the matrix and half of the random histories: a, 0xFF, 0xE9 narrow / WCHAR_MAX, '
+             '(wchar_t)-2, a wide, so that compare/find meet top-bit bytes next to ASCII and the extremes of wchar_t), '
+             'and over 2 characters + embedded NUL from resize, including the never-allocated and '
              'the reserved-but-unwritten flavour of the empty string; in every reachable state every op of the alphabet '
              '(set_str, insert, insert_str, insert_str_n, insert_ch, append*, erase, substr, resize, reserve, swap, '
              'clear, at, at_const, find_ch, find_str, find, compare, compare_str) is applied with positions '
